@@ -238,10 +238,14 @@ def lattice_bins(rng, nmax):
     forms before a comparison is exact in binary64"""
     n = rng.randint(2, nmax)
     start = rng.choice([1, 10, 1000, 5000]) * F(1)
-    kind = rng.choice(['uniform', 'pow2', 'small_int'])
+    kind = rng.choice(['uniform', 'pow2', 'small_int', 'fine'])
+    if kind == 'fine':      # pixels 2^-5 .. 2^-10 wide at wavelengths of thousands: widths down to 1e-7 of the wavelength
+        start = rng.choice([4096, 5000, 65536]) * F(1)
     steps = []
     for _ in range(n - 1):
-        if kind == 'uniform':
+        if kind == 'fine':
+            steps.append(steps[0] if steps and rng.random() < 0.7 else F(2) ** -rng.randint(5, 10))
+        elif kind == 'uniform':
             steps.append(steps[0] if steps else F(rng.choice([1, 2, 4, 1]), rng.choice([1, 2, 4])))
         elif kind == 'pow2':
             steps.append(F(2) ** rng.randint(-2, 3))
